@@ -256,6 +256,20 @@ def indep_oracle(line, out):
                 f"a needed generator was recorded as dependent")
     return None
 
+# ---- the same at high volume, directed by the model: `classify` lines on random 4-qubit sets are answered by the
+# implementation and by the exact model of the classifier; where the two disagree on the dependents the closure oracle above is
+# evaluated on the implementation's get_independents() (agreeing lines are covered, at lower volume, by the stream above)
+def volume_oracle(lines, outs):
+    import impl_classify
+    rep = run_model(lines)
+    res = [None] * len(lines)
+    for k, (l, o, m) in enumerate(zip(lines, outs, rep)):
+        if impl_classify.strip_meta(m) == o:
+            continue
+        il = "indep " + l.split(" ", 1)[1]
+        res[k] = indep_oracle(il, indep_handle(il))
+    return res
+
 def build_streams(rng, tier):
     th = tier == "thorough"
     lines = []
@@ -287,6 +301,10 @@ def build_streams(rng, tier):
                indep_handle, indep_oracle, model=False, tag=lambda l, o: "indep:" + ("err" if o.startswith("!") else "set"),
                nontrivial=lambda l, o: len(O.closure_strs(O.pad(lst(l.split(" ")[1])))) == 4 ** len(O.pad(lst(l.split(" ")[1]))[0]) - 1),
         Stream("inputs-already-at-the-target", boundary, IO.handle, **kw),
+        Stream("independents:volume-directed-by-the-classifier-model", [G.line_of("classify", [G.rs(rng, 4) for _ in range(rng.randint(9, 12))] if rng.random() < 0.6
+                                                                            else chain_plus(rng, 4)) for _ in range(100000 if th else 9000)],
+               __import__("impl_classify").handle, batch_oracle=volume_oracle, canon=__import__("impl_classify").strip_meta,
+               tag=lambda l, o: "volume", nontrivial=lambda l, o: "deps=-" not in o),
         Stream("classified-then-member-edited-in-place", [gen_member_edit(rng) for _ in range(1500 if th else 400)], optimise_after_member_edit,
                oracle=oracle_after_member_edit, model=False, tag=lambda l, o: "member-edit"),
         Stream("all-random-choices(model)", explore, explore_one, batch_oracle=explore_oracle, model=False,
